@@ -89,6 +89,7 @@ type Check struct {
 	level       string
 	rule        string
 	timedOut    atomic.Bool
+	memChecked  atomic.Int64
 }
 
 // ExitCode is read by TestMain of each check package.
@@ -151,14 +152,33 @@ func (c *Check) Expired() bool {
 	if c.timedOut.Load() {
 		return true
 	}
-	if time.Now().After(c.dl) {
+	now := time.Now()
+	if now.After(c.dl) {
 		c.timedOut.Store(true)
 		c.mu.Lock()
 		c.exhaustive = false
 		c.mu.Unlock()
 		return true
 	}
+	// memory guard: an exploration whose bookkeeping (state caches, frontiers) outgrows the budget
+	// ends like one that ran out of time - exhaustive=false, exit 0 - instead of being OOM-killed
+	if last := c.memChecked.Load(); now.UnixNano()-last > int64(time.Second) && c.memChecked.CompareAndSwap(last, now.UnixNano()) {
+		var ms runtime.MemStats
+		runtime.ReadMemStats(&ms)
+		if ms.HeapAlloc > memLimit() {
+			c.timedOut.Store(true)
+			c.Cap(fmt.Sprintf("memory budget reached (heap %d MiB > %d MiB): exploration stopped like at a deadline", ms.HeapAlloc>>20, memLimit()>>20))
+			return true
+		}
+	}
 	return false
+}
+
+func memLimit() uint64 {
+	if v, err := strconv.ParseFloat(os.Getenv("VERIF_MEM_GB"), 64); err == nil && v > 0 {
+		return uint64(v * float64(1<<30))
+	}
+	return 6 << 30
 }
 
 // Cap records that a bound was hit and what was covered below it.
